@@ -43,6 +43,30 @@ fn laws(v: u32, deep: bool) -> Result<(), String> {
             return Err(format!("equality between {v} and {o} across u32/TagTypeId/TagType: {got:?}, numeric equality is {e}"));
         }
     }
+    // a directly constructed Custom(v) has the numeric value v, whatever v is
+    let cu = m::TagType::Custom(v);
+    if u32::from(cu) != v || cu.val() != v || u32::from(m::TagTypeId::from(cu)) != v {
+        return Err(format!("Custom({v}) converts to {}", u32::from(cu)));
+    }
+    for o in [v, v ^ 1, v.wrapping_add(1), 0, 21, 22] {
+        let e = o == v;
+        let oi = m::TagTypeId::from(o);
+        let got = [cu == o, o == cu, cu == oi, oi == cu];
+        if got.iter().any(|g| *g != e) {
+            return Err(format!("equality between Custom({v}) and the number/id {o}: {got:?}, numeric equality is {e}"));
+        }
+    }
+    let ca = m::MemoryAreaType::Custom(v);
+    if u32::from(m::MemoryAreaTypeId::from(ca)) != v {
+        return Err(format!("MemoryAreaType::Custom({v}) converts to {}", u32::from(m::MemoryAreaTypeId::from(ca))));
+    }
+    for o in [v, v ^ 1, 1, 5, 6] {
+        let e = o == v;
+        let oid = m::MemoryAreaTypeId::from(o);
+        if (ca == oid) != e || (oid == ca) != e {
+            return Err(format!("equality between MemoryAreaType::Custom({v}) and the id {o} disagrees with numeric equality"));
+        }
+    }
     // memory area types
     let aid = m::MemoryAreaTypeId::from(v);
     let at = m::MemoryAreaType::from(aid);
